@@ -20,8 +20,14 @@ type Behavior struct {
 	Fast, Ext, DHTBit bool // reserved bits advertised in the handshake
 
 	// What the peer has and how it says so.
-	Have     Bits   // nil = nothing
-	Announce string // "auto" (haveall/havenone when fast, else bitfield), "bitfield", "haves", "lazy"
+	Have Bits // nil = nothing
+	// HangupAfterCorrupt: close the connection right after the last block of a piece that was
+	// served with corruption (the hash failure is then detected when the peer is already gone).
+	HangupAfterCorrupt bool
+	// RedundantHaves: after the initial announcement, this many have messages for pieces
+	// already announced are sent again (legal, and seen from real clients).
+	RedundantHaves int
+	Announce       string // "auto" (haveall/havenone when fast, else bitfield), "bitfield", "haves", "lazy"
 	// LieHave: advertise these pieces although the peer cannot serve them honestly.
 	LieHave []int
 
@@ -97,6 +103,10 @@ type Hooks struct {
 	OnClose func(p *Peer, err error)
 	// OnRequest is called for each request from the SUT.
 	OnRequest func(p *Peer, r Req)
+	// OnServedPiece is called when this connection has delivered every byte of a piece in
+	// well-formed blocks; corrupt tells whether any of them carried wrong bytes. mark is
+	// consumed once the SUT has read the last of them.
+	OnServedPiece func(p *Peer, index int, corrupt bool, mark *simnet.Mark)
 	// OnActive is called (with the peer's lock held: do not call back into the peer) when the
 	// piece the SUT has outstanding, un-cancelled block requests for at this peer changes
 	// (on=false: no outstanding request any more).
@@ -137,10 +147,15 @@ type Peer struct {
 	afRecv          map[uint32]bool // allowed-fast the SUT granted us
 	reqIn           []Req           // requests from the SUT we have not answered
 	actOn           bool
+	servedBytes     map[uint32]int
+	servedBegins    map[uint32]map[uint32]bool
+	servedCorrupt   map[uint32]bool
+	sentMalformed   bool
+	hangup          bool
 	actPiece        uint32
-	reqOut          []Req           // our requests the SUT has not answered
-	reqCancelled    map[Req]int     // requests we cancelled (an answer may still arrive: cancel is advisory)
-	reqChokeDropped map[Req]int     // requests dropped by a choke from the SUT (non-fast)
+	reqOut          []Req       // our requests the SUT has not answered
+	reqCancelled    map[Req]int // requests we cancelled (an answer may still arrive: cancel is advisory)
+	reqChokeDropped map[Req]int // requests dropped by a choke from the SUT (non-fast)
 	served          int
 	chokeMark       *simnet.Mark // set when we sent choke: consumed-by-SUT tracking
 	everUnchoked    bool
@@ -368,6 +383,13 @@ func (p *Peer) sendFn(fn func()) {
 	}
 }
 
+// SutAnnounced reports whether the SUT has announced piece i to this peer (have/bitfield).
+func (p *Peer) SutAnnounced(i int) bool {
+	p.mu.Lock()
+	defer p.mu.Unlock()
+	return p.haveSentToUs[uint32(i)]
+}
+
 // Advertised returns the pieces this peer told the SUT it has.
 func (p *Peer) Advertised() Bits {
 	p.mu.Lock()
@@ -524,6 +546,25 @@ func (p *Peer) sendInitial() {
 	}
 	if len(p.B.PEXAdded) > 0 && p.ext() {
 		go p.pexLoop()
+	}
+	if p.B.RedundantHaves > 0 && cnt > 0 {
+		rr := p.rng.Fork()
+		go func() {
+			for k := 0; k < p.B.RedundantHaves; k++ {
+				select {
+				case <-time.After(rr.Dur(0, 3*time.Second)):
+				case <-p.done:
+					return
+				}
+				i := rr.Intn(n)
+				for !adv.Has(i) {
+					i = (i + 1) % n
+				}
+				simrt.Count("fault.peer.redundant_have", 1)
+				p.Send(EncHave(uint32(i)))
+				p.markAdvertised()
+			}
+		}()
 	}
 }
 
@@ -977,6 +1018,14 @@ func (p *Peer) server() {
 			served := p.served
 			p.mu.Unlock()
 			p.serveOne(r)
+			p.mu.Lock()
+			hang := p.hangup
+			p.mu.Unlock()
+			if hang {
+				time.Sleep(time.Duration(1+p.rng.Intn(30)) * time.Millisecond) // queued bytes go out first
+				p.Close()
+				return
+			}
 			if p.B.DisconnectAfterBlocks > 0 && served >= p.B.DisconnectAfterBlocks {
 				simrt.Count("fault.peer.disconnect", 1)
 				// let queued bytes go out first
@@ -1006,13 +1055,16 @@ func (p *Peer) serveOne(r Req) {
 			lied = true
 		}
 	}
+	corrupted, malformed := false, false
 	if lied || p.B.CorruptPieces[int(r.Index)] || p.rng.Chance(p.B.CorruptP) {
 		simrt.Count("fault.peer.corrupt_block", 1)
 		if len(data) > 0 {
 			data[p.rng.Intn(len(data))] ^= byte(1 + p.rng.Intn(255))
+			corrupted = true
 		}
 	}
 	if p.rng.Chance(p.B.WrongLenP) && len(data) > 1 {
+		malformed = true
 		simrt.Count("fault.peer.wronglen_block", 1)
 		if p.rng.Bool() {
 			data = data[:1+p.rng.Intn(len(data)-1)]
@@ -1021,6 +1073,7 @@ func (p *Peer) serveOne(r Req) {
 		}
 	}
 	if p.rng.Chance(p.B.OutOfRangeP) {
+		malformed = true
 		simrt.Count("fault.peer.outofrange_block", 1)
 		switch p.rng.Intn(3) {
 		case 0:
@@ -1032,6 +1085,7 @@ func (p *Peer) serveOne(r Req) {
 		}
 	}
 	if p.rng.Chance(p.B.UnrequestedP) {
+		malformed = true
 		simrt.Count("fault.peer.unrequested_block", 1)
 		oi := p.rng.Intn(p.T.NumPieces)
 		ob := uint32(0)
@@ -1045,6 +1099,54 @@ func (p *Peer) serveOne(r Req) {
 	if p.rng.Chance(p.B.DupP) {
 		simrt.Count("fault.peer.dup_block", 1)
 		p.Send(EncPiece(r.Index, r.Begin, data))
+	}
+	p.noteServed(r, corrupted, malformed)
+}
+
+// noteServed keeps track of pieces this connection has delivered completely.
+func (p *Peer) noteServed(r Req, corrupted, malformed bool) {
+	p.mu.Lock()
+	if malformed {
+		p.sentMalformed = true
+	}
+	if p.servedBytes == nil {
+		p.servedBytes, p.servedBegins, p.servedCorrupt = map[uint32]int{}, map[uint32]map[uint32]bool{}, map[uint32]bool{}
+	}
+	if p.servedBegins[r.Index] == nil {
+		p.servedBegins[r.Index] = map[uint32]bool{}
+	}
+	if !p.servedBegins[r.Index][r.Begin] {
+		p.servedBegins[r.Index][r.Begin] = true
+		p.servedBytes[r.Index] += int(r.Length)
+	}
+	if corrupted {
+		p.servedCorrupt[r.Index] = true
+	}
+	full := p.servedBytes[r.Index] >= p.T.PieceSize(int(r.Index))
+	corrupt := p.servedCorrupt[r.Index]
+	clean := !p.sentMalformed
+	if full {
+		delete(p.servedBytes, r.Index)
+		delete(p.servedBegins, r.Index)
+		delete(p.servedCorrupt, r.Index)
+	}
+	p.mu.Unlock()
+	if !full || !clean {
+		return
+	}
+	if p.H.OnServedPiece != nil {
+		idx := int(r.Index)
+		p.sendFn(func() {
+			if p.pair != nil {
+				p.H.OnServedPiece(p, idx, corrupt, p.pair.MarkWritten(p.side))
+			}
+		})
+	}
+	if corrupt && p.B.HangupAfterCorrupt {
+		simrt.Count("fault.peer.hangup_after_corrupt", 1)
+		p.mu.Lock()
+		p.hangup = true
+		p.mu.Unlock()
 	}
 }
 
@@ -1486,7 +1588,21 @@ func (p *Peer) fuzzRequest() bool {
 			i = have[r.Intn(len(have))]
 		}
 		ps := uint32(t.PieceSize(i))
-		switch r.Intn(7) {
+		k := r.Intn(9)
+		if k >= 7 {
+			// aim at the short last piece: begin past its real end but inside the nominal
+			// piece length
+			last := t.NumPieces - 1
+			if lps := uint32(t.PieceSize(last)); lps < uint32(t.PieceLen) && p.SutHave.Has(last) {
+				i, ps = last, lps
+			} else {
+				k = 4
+			}
+		}
+		switch k {
+		case 7, 8:
+			b := ps + uint32(r.Intn(int(uint32(t.PieceLen)-ps)))
+			q = Req{uint32(i), b, 1 + uint32(r.Intn(int(min(16384, uint32(t.PieceLen)-b))))}
 		case 0:
 			q = Req{uint32(i), 0, 0} // zero length
 		case 1:
